@@ -16,12 +16,12 @@
 //   - an observation with counter 0 is left open by the statement: Observe() returns both
 //     readings — "nothing happened" and "an ordinary observation of the value 0".
 //
-// Time is in integer milliseconds.  All values are per second; the caller applies the unit scale
+// Time is in integer nanoseconds.  All values are per second; the caller applies the unit scale
 // (x8/1000 for the kbit/s meter).
 package refkxps
 
-// Lengths of the windows in milliseconds.
-var Lengths = [3]int64{10000, 30000, 300000}
+// Lengths of the windows in nanoseconds.
+var Lengths = [3]int64{10e9, 30e9, 300e9}
 
 type Window struct {
 	PrevT int64
@@ -58,7 +58,7 @@ func (s State) observe(t int64, c uint64) State {
 		inc := increase(c, w.PrevC)
 		w.PrevT, w.PrevC = t, c
 		if inc > 0 {
-			w.Rate = float64(inc) / (float64(Lengths[i]) / 1000)
+			w.Rate = float64(inc) / (float64(Lengths[i]) / 1e9)
 			s.Last[i] = 1
 		} else {
 			w.Rate = 0
@@ -107,5 +107,5 @@ func (a *Average) Read(t int64, c uint64) (want float64, any bool) {
 	if t <= a.T0 {
 		return 0, true
 	}
-	return float64(inc) / (float64(t-a.T0) / 1000), false
+	return float64(inc) / (float64(t-a.T0) / 1e9), false
 }
